@@ -196,20 +196,34 @@ def _is_forward(ctx, module, step, expanded, key_param, fwd_args, fwd_kwargs, me
                     and is_param(node.left, method_param) and isinstance(node.comparators[0], (ast.Tuple, ast.List, ast.Set)) \
                     and all(isinstance(e, ast.Constant) for e in node.comparators[0].elts):
                 cases = [e.value for e in node.comparators[0].elts]
-        if cases and set(cases) <= {"reduce", "accumulate"} and isinstance(key, ast.Subscript) \
-                and is_param(key.slice, key_param) and isinstance(key.value, ast.Subscript) \
-                and is_param(key.value.slice, method_param):
-            binding = ctx.res.resolve_expr(module, key.value.value)
+        table_expr = None
+        if isinstance(key, ast.Subscript) and is_param(key.slice, key_param):
+            inner = key.value
+            if cases and set(cases) <= {"reduce", "accumulate"} and isinstance(inner, ast.Subscript) \
+                    and is_param(inner.slice, method_param):
+                table_expr = inner.value
+            elif isinstance(inner, ast.Call) and isinstance(inner.func, ast.Attribute) and inner.func.attr == "get" \
+                    and len(inner.args) == 1 and not inner.keywords and is_param(inner.args[0], method_param):
+                # TABLE.get(method)[ufunc]: every key of the table is a case, any other method yields None
+                table_expr = inner.func.value
+                cases = None
+        if table_expr is not None:
+            binding = ctx.res.resolve_expr(module, table_expr)
             table = binding.node.value if binding.kind == "assign" else None
             if isinstance(table, ast.Dict):
                 entries = {k.value: ctx.dotted(module, v) for k, v in zip(table.keys, table.values)
                            if isinstance(k, ast.Constant)}
                 want = {"reduce": "numpoly.baseclass.REDUCE_MAPPINGS", "accumulate": "numpoly.baseclass.ACCUMULATE_MAPPINGS"}
+                if cases is None:
+                    cases = sorted(entries)
+                    extra = [c for c in cases if c not in want]
+                    if extra:
+                        return False, f"the method table forwards ufunc method '{extra[0]}', which must raise FeatureNotSupported"
                 wrong = [c for c in cases if entries.get(c) != want[c]]
                 if wrong:
                     return False, (f"method '{wrong[0]}' is looked up in {entries.get(wrong[0])}, it must use "
                                    f"{want[wrong[0]].split('.')[-1]}")
-                return True, f"forwards {'/'.join(cases)} through {U(key.value.value)}"
+                return True, f"forwards {'/'.join(cases)} through {U(table_expr)}"
     if case is None:
         return False, ("a forwarding path is not guarded by method == '__call__' / 'reduce' / "
                        "'accumulate' (other ufunc methods must raise FeatureNotSupported)")
